@@ -466,9 +466,49 @@ def check_C04(tier, seed):
     return finish(rep)
 
 
+def entry_cases(rep, rng, quick):
+    r = run_mc("MC_Entries.tla", "MC_Entries.cfg", workers=4)
+    rep.add_mc("MC_Entries", r, "entry-point shapes: fragment results over all location subsets, vertex parameter sequences, workgroup sizes")
+    cases = []
+    for i, e in enumerate(r.cases):
+        cases.append({"id": "ent-%04d" % i, "family": "entries-exported", "S": e["S"], "opts": F.opts(mv=("rust", "glam")[i % 2], bmv=(i % 3 == 0))})
+    rcases = []
+    for i in range(120 if quick else 2500):
+        S, has_rt = F.role_shader(rng, big_arrays=False, entry_names=True)
+        if rng.random() < 0.4:
+            S["overrides"] = [{"name": "scale", "ty": "f32", "default": "1.0"}, {"name": "count", "ty": "u32", "id": 3}]
+        rcases.append({"id": "role-%05d" % i, "family": "entries-random", "S": S, "opts": F.opts(enc=(i % 3 != 2), mv=("rust", "glam", "nalgebra")[i % 3], bmv=(i % 2 == 0))})
+    return cases, rcases
+
+
+def check_C14(tier, seed):
+    rep = Report("C14", tier, seed)
+    rng = random.Random(seed)
+    cases, rcases = entry_cases(rep, rng, tier == "quick")
+    compiled_and_judge(rep, "C14", cases, "exported", "shim", {"entries"}, keep=["mods"])
+    compiled_and_judge(rep, "C14", rcases, "random", "shim", {"entries"}, keep=["mods"])
+    return finish(rep)
+
+
+def check_C07(tier, seed):
+    rep = Report("C07", tier, seed)
+    rng = random.Random(seed)
+    cases, rcases = entry_cases(rep, rng, tier == "quick")
+    cases = [c for c in cases if any(e["stage"] == "vertex" for e in c["S"]["entries"])]
+    # every vertex case under the three representations and the derive switches that change field alignment
+    more = []
+    for c in cases:
+        for j, o in enumerate([F.opts(mv="glam", bmv=True), F.opts(mv="nalgebra"), F.opts(mv="glam", enc=True, serde=True)]):
+            d = dict(c); d["id"] = c["id"] + "-o%d" % j; d["opts"] = o
+            more.append(d)
+    compiled_and_judge(rep, "C07", cases + more, "exported", "shim", {"entries", "layout"}, keep=["mods"])
+    compiled_and_judge(rep, "C07", rcases, "random", "shim", {"entries", "layout"}, keep=["mods"])
+    return finish(rep)
+
+
 # Does the specification of the stage walk memoise callees per entry point? (the code does since the C20 fix)
 MEMO = True
 # Does the type closure return early on a type it has already inserted? (the code does since the C20 fix)
 EARLY = True
 
-CHECKS = {"C11": check_C11, "C03": check_C03, "C08": check_C08, "C20": check_C20, "C13": check_C13, "C09": check_C09, "C17": check_C17, "C18": check_C18, "C19": check_C19, "C06": check_C06, "C04": check_C04}
+CHECKS = {"C11": check_C11, "C03": check_C03, "C08": check_C08, "C20": check_C20, "C13": check_C13, "C09": check_C09, "C17": check_C17, "C18": check_C18, "C19": check_C19, "C06": check_C06, "C04": check_C04, "C14": check_C14, "C07": check_C07}
